@@ -1,5 +1,7 @@
 (* Recover.v -- model of readThroughSegment / recoverTail / zeroStaleTail
-   (segment/writer.go) over the byte image of a file. *)
+   (segment/writer.go) over the byte image of a file.  recoverTailState as
+   repaired (walk back over ALL commit frames to the most recent one whose CRC
+   verifies); the algorithm before the repair is kept in Seg/RecoverOld.v. *)
 From RW Require Import Base.Bytes Base.Crc32c Fmt.Frame Seg.Writer Gen.Constants.
 Open Scope N_scope.
 
@@ -35,29 +37,27 @@ Definition scanned_header (f : bytes) : N * N * N :=
 Record commit_info := { c_crc : N; c_off : N; c_crc_start : N; c_offsets_len : nat;
                         c_index_start : N }.
 
-Record rec_acc := { ra_offsets : list N; ra_pending : N;
-                    ra_prev : option commit_info; ra_final : option commit_info }.
+(* every commit frame of the scan, newest first *)
+Record rec_acc := { ra_offsets : list N; ra_pending : N; ra_commits : list commit_info }.
 
 Definition rec_step (a : rec_acc) (e : frame_ev) : rec_acc :=
   if fe_typ e =? FrameEntry then
     {| ra_offsets := ra_offsets a ++ [fe_off e mod two32]; ra_pending := ra_pending a;
-       ra_prev := ra_prev a; ra_final := ra_final a |}
+       ra_commits := ra_commits a |}
   else if fe_typ e =? FrameIndex then
-    {| ra_offsets := ra_offsets a; ra_pending := fe_off e + 8;
-       ra_prev := ra_prev a; ra_final := ra_final a |}
+    {| ra_offsets := ra_offsets a; ra_pending := fe_off e + 8; ra_commits := ra_commits a |}
   else (* commit *)
     {| ra_offsets := ra_offsets a; ra_pending := 0;
-       ra_prev := ra_final a;
-       ra_final := Some {| c_crc := fe_val e; c_off := fe_off e;
-                           c_crc_start := match ra_final a with
-                                          | Some p => c_off p + 8
-                                          | None => 0
-                                          end;
-                           c_offsets_len := length (ra_offsets a);
-                           c_index_start := ra_pending a |} |}.
+       ra_commits := {| c_crc := fe_val e; c_off := fe_off e;
+                        c_crc_start := match ra_commits a with
+                                       | p :: _ => c_off p + 8
+                                       | [] => 0
+                                       end;
+                        c_offsets_len := length (ra_offsets a);
+                        c_index_start := ra_pending a |} :: ra_commits a |}.
 
 Definition rec_fold (evs : list frame_ev) : rec_acc :=
-  fold_left rec_step evs {| ra_offsets := []; ra_pending := 0; ra_prev := None; ra_final := None |}.
+  fold_left rec_step evs {| ra_offsets := []; ra_pending := 0; ra_commits := [] |}.
 
 Definition recovered (info : seginfo) (off istart : N) (offs : list N) : wstate :=
   let w := {| w_info := info; w_buf := []; w_crc := 0; w_off := off mod two32;
@@ -65,30 +65,31 @@ Definition recovered (info : seginfo) (off istart : N) (offs : list N) : wstate 
   {| w_info := info; w_buf := []; w_crc := 0; w_off := w_off w; w_index_start := istart;
      w_offsets := offs; w_commit_idx := commit_idx_of w |}.
 
-(* recoverTailState: None = error (header mismatch) *)
+(* the CRC a commit frame stores matches the bytes between the preceding commit
+   frame of the scan (the start of the file for the first one) and itself *)
+Definition commit_good (f : bytes) (c : commit_info) : bool :=
+  crc32c (read_at f (c_crc_start c) (c_off c - c_crc_start c)) =? c_crc c.
+
+(* walk back from the last commit frame to the most recent one that verifies *)
+Fixpoint find_good (f : bytes) (cs : list commit_info) : option commit_info :=
+  match cs with
+  | [] => None
+  | c :: r => if commit_good f c then Some c else find_good f r
+  end.
+
+(* recoverTailState: None = error (header mismatch).  No commit frame, or none
+   that verifies: the file is re-initialised empty without looking at its
+   header.  (The ReadAt of the batch buffer cannot come up short: every commit
+   frame of the scan lies inside the file, AllocFacts.recover_alloc_bound.) *)
 Definition recover_state (info : seginfo) (f : bytes) : option wstate :=
   let a := rec_fold (scan f) in
   let hdr_ok := validate_file_header (scanned_header f) info in
-  match ra_final a with
+  match find_good f (ra_commits a) with
   | None => Some (init_empty info)
-  | Some fc =>
-      if Nat.ltb (c_offsets_len fc) (length (ra_offsets a)) then
-        if hdr_ok then Some (recovered info (c_off fc + 8) (c_index_start fc)
-                                       (firstn (c_offsets_len fc) (ra_offsets a)))
-        else None
-      else
-        let batch := read_at f (c_crc_start fc) (c_off fc - c_crc_start fc) in
-        if crc32c batch =? c_crc fc then
-          if hdr_ok then Some (recovered info (c_off fc + 8) (c_index_start fc) (ra_offsets a))
-          else None
-        else
-          match ra_prev a with
-          | None => Some (init_empty info)
-          | Some pc =>
-              if hdr_ok then Some (recovered info (c_off pc + 8) (c_index_start pc)
-                                             (firstn (c_offsets_len pc) (ra_offsets a)))
-              else None
-          end
+  | Some g =>
+      if hdr_ok then Some (recovered info (c_off g + 8) (c_index_start g)
+                                     (firstn (c_offsets_len g) (ra_offsets a)))
+      else None
   end.
 
 (* zeroStaleTail: 64 KiB chunks from the recovered write offset to EOF *)
